@@ -20,7 +20,8 @@ for p in props:
     mod = None
     if os.path.exists(path):
         mod = importlib.import_module("vlib.props." + pid)
-    if mod is None or getattr(mod, "CLAIMED", True) is False:
+    claimed_ids = set(open(os.path.join(V, "tools", "claimed.txt")).read().split())
+    if mod is None or pid not in claimed_ids:
         na.append({"property_id": pid, "reason": PENDING.get(pid, "check not built yet in this round; planned as in DESIGN.md section 4 %s" % pid)})
         continue
     checks.append({
